@@ -1403,3 +1403,46 @@ Definition form_encodable (v : fval) : bool :=
 (* werkzeug cannot take a non-empty list as data= (finding F14) *)
 Definition wsgi_array_form (t : transport) (v : fval) : bool :=
   match t, v with TWsgi, FList (_ :: _) => true | _, _ => false end.
+
+(* ------------------------------------------------------------------------------------------------ *)
+(* 16. the three producers of a path / query container (added after seed C06_g)                      *)
+(*     fuzzing:  get_parameters_strategy  = serialize -> is_valid_* filter -> quote_all -> jsonify   *)
+(*     examples: get_strategies_from_examples.make_serializer (specs/openapi/examples.py:56-74)      *)
+(*               = the style serializer ONLY: no validity filter, no quote_all, no jsonify           *)
+(*     coverage: Template._serialize (section 13) = serialize -> quote_all -> _stringify_value:      *)
+(*               no validity filter either                                                            *)
+(*     So a text that is_valid_path drops in the fuzzing phase (the empty string) IS sent by the     *)
+(*     other two phases.                                                                             *)
+(* ------------------------------------------------------------------------------------------------ *)
+Inductive phase := PhFuzz | PhExamples | PhCoverage.
+Definition phase_path (ph : phase) (defs : list definition) (it : item) : gen_res :=
+  match ph with
+  | PhFuzz => generated_path defs it
+  | PhExamples => match serialize3 defs it with Some it1 => GOk it1 | None => GUnmodelled end
+  | PhCoverage =>
+      match serialize3 defs it with
+      | None => GUnmodelled
+      | Some it1 => match quote_all it1 with Some it2 => GOk (stringify_item it2) | None => GRaises end
+      end
+  end.
+Definition phase_query (ph : phase) (defs : list definition) (it : item) : gen_res :=
+  match ph with
+  | PhFuzz => generated_query defs it
+  | PhExamples => match serialize3 defs it with Some it1 => GOk it1 | None => GUnmodelled end
+  | PhCoverage => match serialize3 defs it with Some it1 => GOk (stringify_q_item it1) | None => GUnmodelled end
+  end.
+
+(* the text that replaces {name} in the path template: str.format of the entry *)
+Definition path_text (name : str) (r : gen_res) : option str :=
+  match r with GOk it => obind (d_get name it) entry_str | _ => None end.
+(* what a server reads: percent-decode the segment, then the decoder of the declared style (None = no style serializer) *)
+Definition read_segment (f : option sfun) (name : str) (seg : str) : option cvalue :=
+  obind (pct_decode_form seg) (fun s => match f with Some g => dec_value g name s | None => Some (CPrim s) end).
+
+(* SENTINEL - the rule of seed C06_g (matrix_primitive tests the truth value like label_primitive does); not used by the
+   correspondence *)
+Definition matrix_prim_truthy (name : str) (v : value) : option str :=
+  if truthy v then match v with VPrim p => Some (59 :: name ++ [61] ++ py_str p) | _ => None end else Some [].
+
+Definition def_path_prim (name : str) (st : pstyle) (e : option bool) : definition :=
+  {| d_name := name; d_in := LPath; d_style := st; d_explode := e; d_type := TOther; d_content := CtNone |}.
